@@ -48,6 +48,30 @@ pub fn run(ctx: &mut Ctx) {
             }
         }
     }
+    // 1b. random compiler output: notes whose payload is any bytes (Latin-1 / invalid UTF-8 file
+    // names, multi-byte names, blanks), CR LF and LF line ends, interleaved with ordinary lines
+    let n = if ctx.thorough() { 60_000 } else { 3_000 };
+    for _ in 0..n {
+        let nlines = ctx.rng.range(1, 6);
+        let mut s: Vec<u8> = vec![];
+        for li in 0..nlines {
+            let note = ctx.rng.chance(1, 2);
+            if note {
+                s.extend_from_slice(if ctx.rng.chance(1, 8) { b"Note: including file:" } else { b"Note: including file: " });
+                for _ in 0..ctx.rng.below(3) { s.push(b' '); }
+            }
+            for _ in 0..ctx.rng.range(0, 8) {
+                match ctx.rng.below(8) {
+                    0 => s.push(0xe9), 1 => s.push(0xff), 2 => s.extend_from_slice("é".as_bytes()), 3 => s.extend_from_slice("日".as_bytes()),
+                    4 => s.push(b' '), 5 => s.push(b'/'), _ => s.push(b'a' + ctx.rng.below(6) as u8),
+                }
+            }
+            if li + 1 < nlines || ctx.rng.chance(2, 3) { if ctx.rng.chance(1, 2) { s.push(b'\r'); } s.push(b'\n'); }
+        }
+        ctx.count("showinc_random");
+        ctx.emit(&format!("showinc {}", hex(&s)), || showinc_line(&s));
+    }
+    if std::env::var("N2V_EXEC_TEXT_ONLY").is_ok() { return; }
     let tp = TempProject::new("exec");
     // 2. exit codes and signals through the real run_command
     let codes: Vec<usize> = if ctx.thorough() { (0..256).collect() } else { vec![0, 1, 2, 3, 7, 42, 126, 127, 128, 130, 137, 255] };
